@@ -231,6 +231,7 @@ func buildCases(ctx *core.Ctx, shapes []Shape) []*Case {
 	cases = append(cases, MapLitErrorCase("go-maplit-2err"))
 	cases = append(cases, TieCases()...)
 	cases = append(cases, SharedNamespaceCases()...)
+	cases = append(cases, OneErrorCases()...)
 	return cases
 }
 
@@ -403,6 +404,22 @@ func exploreCase(ctx *core.Ctx, c *Case, st *exploreState, repsID, repsOther int
 			continue
 		}
 		report(d)
+	}
+	// repetitions on the same compiled registry (second pass inside Observe)
+	for _, p := range perms {
+		key := OrderKey(p)
+		r := refs[key]
+		if r["reuse"] == "" || cs.reported["reuse"] {
+			continue
+		}
+		comp := strings.SplitN(r["reuse"], " ", 2)[0]
+		if unstable[comp] != nil || unstable["reuse"] != nil || explained(comp) {
+			continue // the component is not even stable between fresh compiles: reported above
+		}
+		cs.reported["reuse"] = true
+		ctx.Violation(core.Sig{Family: "reuse", Feature: strings.TrimSuffix(comp, "+cat") + "-changes-on-the-same-compiled-registry"},
+			fmt.Sprintf("case %s order %s: %s", c.ID, key, r["reuse"]),
+			&Disagreement{Case: c, Component: comp, Kind: "same-registry", OrderA: key, OrderB: key, A: r["reuse:a"], B: r["reuse:b"]})
 	}
 	// across insertion orders
 	id := OrderKey(perms[0])
